@@ -824,6 +824,9 @@ def series_computation(
     }
 
     def del_(series_name, index: int) -> None:
+        if not any(index[2:]):
+            # The zeroth order holds the start values, these cannot be recomputed.
+            return
         series[series_name].pop(index, None)
         linear_operator_series[series_name].pop(index, None)
 
